@@ -38,6 +38,9 @@ type l2Profile struct {
 	Hooks    int // % of deposits carrying a payload
 	BadRcpt  int // % of deposits with a malformed / blocked recipient
 	Plans    bool
+	ClientID string // when set, the genesis bridge info is present and bound to this L1 light client
+	ForceBridgeInfo bool
+	Pairs    []string
 	NonTriv  func(w *l2World) bool
 }
 
@@ -83,6 +86,7 @@ type l2World struct {
 	histEntriesAtBegin uint32
 	histWritten map[int64]bool
 	noWrap    bool
+	pendingHost []node.HostSetUpdate
 	l1Rcpts   []string // valid L1 recipient strings (set by the two-chain world)
 	lastRes   *abci.ResponseFinalizeBlock
 	lastFired []bool
@@ -201,12 +205,16 @@ func newL2WorldOpt(r *core.Run, p *l2Profile, fixedBridge uint64, bases []string
 		w.m.Vals[v.OperatorAddress] = &mVal{Operator: v.OperatorAddress, OpBytes: valOperator(w.valPool[i]), PubKey: node.ValKey(w.valPool[i]).PubKey().Bytes(), Power: 1, Moniker: v.Moniker}
 	}
 	w.m.Params = gen.Params
-	if r.Chance(2, 3) {
-		bi := w.bridgeInfo("")
+	if p.ClientID != "" || p.ForceBridgeInfo || r.Chance(2, 3) {
+		bi := w.bridgeInfo(p.ClientID)
 		gen.BridgeInfo = &bi
 		w.m.Bridge = &bi
 	}
-	w.n = node.NewL2(w.db, &node.L2Genesis{Time: w.now, Balances: bal, Opchild: gen, CurrencyPairs: []string{"BTC/USD", "ETH/USD"}}, w.opts, nil)
+	pairs := []string{"BTC/USD", "ETH/USD"}
+	if p.Pairs != nil {
+		pairs = p.Pairs
+	}
+	w.n = node.NewL2(w.db, &node.L2Genesis{Time: w.now, Balances: bal, Opchild: gen, CurrencyPairs: pairs}, w.opts, nil)
 	w.enc = w.n.Enc
 	w.eng = engine.New([]string{"ed25519"})
 	if err := w.eng.InitChain(w.n.InitValidators); err != nil {
@@ -769,7 +777,9 @@ func (w *l2World) execBlock(bc blockCtx, txs []l2Pending, crash string) *core.Vi
 		w.restart(crash)
 	}
 	w.n.Fault.ResetLog()
-	res, err := w.n.Finalize(T, raw, nil)
+	host := w.pendingHost
+	w.pendingHost = nil
+	res, err := w.n.Finalize(T, raw, host)
 	if err != nil {
 		return w.blockError(bc, err)
 	}
@@ -777,7 +787,7 @@ func (w *l2World) execBlock(bc blockCtx, txs []l2Pending, crash string) *core.Vi
 	if crash == "after-finalize-before-commit" {
 		w.restart(crash)
 		w.n.Fault.ResetLog()
-		res2, err := w.n.Finalize(T, raw, nil)
+		res2, err := w.n.Finalize(T, raw, host)
 		if err != nil {
 			return w.blockError(bc, err)
 		}
